@@ -16,7 +16,12 @@ Props/C20) + OBSERVED real deployment.  Three parts:
      moves the clock.  After EVERY event the observable state (listening ports,
      every node's `conn` keys, open attempts, deadlines of the armed retry
      timers, `check_connections`, `Network._running`, process flags) is
-     compared with the Lean model driver `lifecycle`.
+     compared with the Lean model driver `lifecycle`.  The real `Network.running` property is evaluated in every
+     partial state (after start(), after every process body with the adversary's moves that follow it, after every
+     QNodeOS decision) and judged: true exactly when EVERY configured QNodeOS endpoint accepts a connection (the
+     probe `SimulaQronConnection.try_connection` is scripted from outside to consult the fake reactor's listen
+     table).  Long spacings (`starve i k`): the QNodeOS of a node is refused k = 21, 25, 60, ... times, one retry
+     period apart, before its virtual node listens.
 (a2) process table.  Real `Network.start/stop` on the fake multiprocessing over
      random start / stop / crash histories vs the model's table.
 (b)  REAL deployment, in child processes only (`c20_child.py`): real
@@ -488,6 +493,26 @@ class MemRun:
         self.viol = []
         self.rounds = None          # rounds the last settle needed; None = events since
         self.dead = False           # start raised: nothing more can be said
+        self.probes = False         # meta-op `probes`: settle also asks Network.running after every QNodeOS decision
+
+    def _running(self):
+        """ask the REAL `Network.running` now and judge the answer (independent of the model): it is true exactly
+        when every configured QNodeOS endpoint accepts a connection.  (A cached positive answer stays right within
+        one incarnation: a listening port never closes before stop(), oracle O1; stop() clears the cache.)"""
+        w = self.world
+        o = self._do("running")
+        lst = w.listening()
+        down = [i for i in range(w.n) if w.qport[i] not in lst]
+        ans = o.endswith("ans=1")
+        if ans and down:
+            self.viol.append(("mem:running-true-while-node-down",
+                              "Network.running answers True while the QNodeOS of node(s) %s (of %d, in configuration "
+                              "order) does not accept host connections; listening: %s" % (
+                                  down, w.n, [i for i in range(w.n) if i not in down])))
+        elif not ans and not down:
+            self.viol.append(("mem:running-false-while-all-up",
+                              "Network.running answers False although every QNodeOS accepts host connections"))
+        return o
 
     def _do(self, line):
         self.lines.append(line)
@@ -517,6 +542,8 @@ class MemRun:
             if any(p.is_alive() for p in w.net.processes):
                 self.viol.append(("mem:stop-leaves-alive", "processes alive after stop: %s" % o))
             self.viol += _census_problems(w, "mem", "stop")
+        elif mop == "probes":
+            self.probes = True
         elif mop == "settle":
             rounds = 0
             while rounds < 4:
@@ -524,11 +551,22 @@ class MemRun:
                 self._do("tick %d" % self.retry)
                 for k in w.open_keys():
                     self._do(_key_line(k))
+                    if self.probes and k[2]:
+                        self._running()
                 if not w.open and not w.timers():
                     break
             self.rounds = rounds
+        elif mop.startswith("starve "):
+            # `starve i k`: the QNodeOS of node i is refused k times in a row, one retry period apart (its virtual
+            # node is not listening yet); everybody else's attempts stay as they are
+            i, k = int(mop.split()[1]), int(mop.split()[2])
+            for _ in range(k):
+                if (i, i, True) in w.open:
+                    self._do("resolveQ %d" % i)
+                self._do("tick %d" % self.retry)
+            self.rounds = None
         elif mop == "running":
-            o = self._do(mop)
+            o = self._running()
             everything_ran = all(p.is_alive() and p.up for p in w.net.processes)
             if everything_ran and self.rounds is not None:
                 # the statement, judged on the real objects (independent of the model)
@@ -566,28 +604,42 @@ def _judge_mem_final(world, rounds):
     return bad
 
 
-def _mem_exec(n, retry, mops):
+def _mem_exec(n, retry, mops, eager=False):
+    """eager: after every process body every open attempt OTHER than a QNodeOS -> own virtual node attempt that would
+    be refused is decided at once (those are left to `starve`)"""
     run = MemRun(n, retry)
     try:
         for m in mops:
             run.do(m)
+            if eager and m.startswith("start") and not run.dead:
+                w = run.world
+                for k in w.open_keys():
+                    if k[2] and w.vport[k[1]] not in w.listening():
+                        continue
+                    run._do(_key_line(k))
     finally:
         run.finish()
     return run
 
 
-def _mem_scenario(res, ctx, n, retry, orders, policy, again=None):
+def _mem_scenario(res, ctx, n, retry, orders, policy, again=None, probe=False):
     """one world: per cycle netstart -> the 2n bodies in the given order, the adversary deciding attempts and
     moving the clock per `policy` -> settle -> running -> netstop.  again = (cycle, k): in that cycle start() is called
-    once more on the RUNNING network after k of the bodies ran (it must leave everything alone)"""
+    once more on the RUNNING network after k of the bodies ran (it must leave everything alone).  probe: the real
+    `Network.running` is asked (and judged, and compared with the model) in every partial state: after start(), after
+    every body + the adversary's moves that follow it, and after every QNodeOS decision of the final settle"""
     rng = ctx.rng
     run = MemRun(n, retry)
     w = run.world
     try:
+        if probe:
+            run.do("probes")
         for c, order in enumerate(orders):
             run.do("netstart")
             if run.dead:
                 break
+            if probe:
+                run.do("running")
             for j, ev in enumerate(list(order) + [None]):
                 if again is not None and again[0] == c and again[1] == j:
                     run.do("netstart")
@@ -606,6 +658,8 @@ def _mem_scenario(res, ctx, n, retry, orders, policy, again=None):
                             run.do(_key_line(ks[rng.randrange(len(ks))]))
                         else:
                             run.do("tick %d" % rng.choice([1, 2, 3, 5, 8, retry, retry + 1]))
+                if probe:
+                    run.do("running")
             run.do("settle")
             run.do("running")
             res.count("mem-rounds-%s" % run.rounds)
@@ -736,7 +790,7 @@ def _shrink(replay, key, budget=400):
             if left[0] <= 0:
                 return False
             left[0] -= 1
-            return any(k == key for k, _ in _mem_exec(replay["n"], replay["retry"], mops).viol)
+            return any(k == key for k, _ in _mem_exec(replay["n"], replay["retry"], mops, replay.get("eager", False)).viol)
         return dict(replay, ops=_ddmin(replay["ops"], fails))
     if replay.get("kind") == "table":
         def fails(ops):
@@ -1028,7 +1082,9 @@ def run(ctx):
     res.rule = ("(a1) in-memory bring-up: every order of the 2n process starts for n<=3 (thorough: n<=4 sampled 3000 + "
                 "n=5 sampled) x policies eager/lazy/random resolve+tick interleaving x retry time in {1,4,8,16}/16 s, "
                 "2 start/stop cycles each (a third of them with start() called once more on the running network), state "
-                "compared with the model after every event; (a2) process table: random start/stop/crash histories n=1..5 "
+                "compared with the model after every event, the real Network.running asked and judged in every partial "
+                "state (after every process body and every QNodeOS decision); long spacings: a QNodeOS refused 21..3x(10 s / "
+                "retry time) times before its virtual node listens; (a2) process table: random start/stop/crash histories n=1..5 "
                 "incl. start on a running network; (a3) get_connection / send_qubit issued while the peer stays down for "
                 "0..3 retry periods; (b) real deployment in child processes incl. start(wait); start; stop and start; "
                 "start; stop. Processes judged over every process object ever created. non-trivial = n>=2; "
@@ -1167,10 +1223,13 @@ def _run_mem(ctx, res, rng, add_viol, batches, extra):
     def starts(n):
         return ["startV %d" % i for i in range(n)] + ["startQ %d" % i for i in range(n)]
 
-    def mem(n, retry, orders, policy, tag, again=None):
-        run = _mem_scenario(res, ctx, n, retry, orders, policy, again)
+    def mem(n, retry, orders, policy, tag, again=None, probe=False):
+        run = _mem_scenario(res, ctx, n, retry, orders, policy, again, probe)
         if again is not None:
             res.count("mem-start-on-running-network")
+        if probe:
+            res.count("mem-running-asked-in-every-partial-state")
+            res.count("mem-running-probes", sum(1 for l in run.lines if l == "running"))
         case = {"n": n, "retry": retry, "policy": policy, "ops": run.mops}
         res.case(case, nontrivial=n >= 2)
         res.count("mem-n%d-%s" % (n, policy))
@@ -1183,7 +1242,7 @@ def _run_mem(ctx, res, rng, add_viol, batches, extra):
     if ctx.replay:
         inp = ctx.replay["input"]
         if inp.get("kind") == "mem":
-            run = _mem_exec(inp["n"], inp["retry"], inp["ops"])
+            run = _mem_exec(inp["n"], inp["retry"], inp["ops"], inp.get("eager", False))
             res.case({"replay": inp["ops"]})
             for key, what in run.viol:
                 add_viol(key, "in-memory, %d nodes: %s" % (inp["n"], what), inp)
@@ -1229,7 +1288,7 @@ def _run_mem(ctx, res, rng, add_viol, batches, extra):
                 # every third world: start() once more on the running network, at a position that moves through the cycle
                 again = (count % 2, (count // 3) % (2 * n + 1)) if count % 3 == 0 else None
                 # second cycle: the reversed order, so every world also exercises stop -> start
-                mem(n, retry, [list(order), list(reversed(order))], policy, "exhaustive", again)
+                mem(n, retry, [list(order), list(reversed(order))], policy, "exhaustive", again, probe=True)
     res.exhaustive = True
     res.notes.append("exhaustive: all %d start orders for n=1,2,3 x {eager,lazy}" % (2 + 24 + 720))
     # random orders / spacings
@@ -1241,7 +1300,46 @@ def _run_mem(ctx, res, rng, add_viol, batches, extra):
                 rng.shuffle(o)
                 orders.append(o)
             again = (rng.randrange(2), rng.randrange(2 * n + 1)) if rng.random() < 0.3 else None
-            mem(n, rng.choice(retries), orders, rng.choice(["random", "random", "eager", "lazy"]), "random", again)
+            mem(n, rng.choice(retries), orders, rng.choice(["random", "random", "eager", "lazy"]), "random", again,
+                probe=rng.random() < 0.5)
+
+    # (a1') long spacings: the QNodeOS process of a node is up long before its virtual node listens -- 21, 25, 60 (and
+    # one more than / five more than / three times `_TIMEOUT / conn_retry_time`) refused attempts, one retry period
+    # apart (virtual time costs nothing); the other processes come up before, in between or after.  The statement
+    # has no bound on the spacing (theorem qnodeos_listens_eventually): once every process has started and the
+    # pending attempts have fired once more, every QNodeOS listens, and the code never called reactor.stop().
+    for n in (1, 2, 3):
+        for retry in retries:
+            period = 160 // retry              # _TIMEOUT (10 s) in retry periods: 20 at the default 0.5 s
+            ks = sorted({21, 25, 60, period + 1, period + 5, 3 * period}) if (retry == 8 or ctx.thorough) else \
+                [period + 1, period + 1 + rng.randrange(1, 3 * period)]
+            for k in ks:
+                if k > 200 and n > 1 and not ctx.thorough:
+                    continue
+                i = rng.randrange(n)
+                others = [e for e in starts(n) if e not in ("startQ %d" % i, "startV %d" % i)]
+                rng.shuffle(others)
+                cut1 = rng.randint(0, len(others))
+                cut2 = rng.randint(cut1, len(others))
+                split = rng.randint(0, k) if cut2 > cut1 else 0
+                mops = ["netstart"] + others[:cut1] + ["startQ %d" % i]
+                if split:
+                    mops.append("starve %d %d" % (i, split))
+                mops += others[cut1:cut2]
+                mops.append("starve %d %d" % (i, k - split))
+                mops += ["startV %d" % i] + others[cut2:] + ["settle", "running", "netstop"]
+                run = _mem_exec(n, retry, mops, eager=True)
+                case = {"n": n, "retry": retry, "policy": "starve", "ops": run.mops}
+                res.case(case, nontrivial=True)
+                res.count("mem-qnodeos-%s-retry-periods-before-its-vnode" % (
+                    "over-3x-timeout" if k >= 3 * period else "over-timeout"))
+                res.count("mem-events", len(run.lines))
+                for key, what in run.viol:
+                    add_viol(key, "in-memory, %d nodes, QNodeOS of node %d refused %d times (retry %d/16 s) before its "
+                             "virtual node came up: %s" % (n, i, k, retry, what),
+                             {"kind": "mem", "n": n, "retry": retry, "policy": "starve", "tag": "long-spacing", "eager": True,
+                              "ops": run.mops})
+                batches.append((run.lines, run.outs, {"n": n, "retry": retry, "policy": "starve", "ops": run.mops}, "mem"))
 
     # (a3) an operation that needs a peer is issued while that peer's virtual node stays down for `down` clock units
     # (less than, exactly, and MORE than one / two retry periods): it must complete once the peer is up
